@@ -11,10 +11,13 @@ Inductive case :=
 (* several goroutines + the periodic cleaner: [lin] = the client operations in the order in which
    they took effect (recorded under the harness's mutex), [obs] their results *)
 | CConc (maxttl : Z) (lin : list op) (obs : list res) (stop_returned cleaner_exited : bool)
-(* several Stop() calls issued so that they OVERLAP (usually while the periodic cleaner is held in
-   the middle of a Cleanup pass): one pair per call = (the call returned, the cleaner goroutine
-   had exited when that call returned - read by the caller itself right after its Stop) *)
-| CStops (calls : list (bool * bool)).
+(* several Stop() calls issued so that they OVERLAP (usually while a ticker-driven cleanup pass is
+   held in the middle of Cleanup): one pair per call = (the call returned, the cleaner goroutine
+   had exited when that call returned - read by the caller itself right after its Stop);
+   [late] = background cleanup work was SEEN after some Stop call had returned: the periodic pass
+   was still parked inside Cleanup at that moment, or the cache read its clock, or the stored keys
+   changed, afterwards (a fact when seen; nothing seen is [false]) *)
+| CStops (calls : list (bool * bool)) (late : bool).
 
 Fixpoint eqb_results (a b : list res) : bool :=
   match a, b with
@@ -27,14 +30,14 @@ Definition model_agrees (c : case) : bool :=
   match c with
   | CSeq maxttl ops obs _ _ => eqb_results (results maxttl 0 ops) obs
   | CConc _ _ _ _ _ => true   (* the schedule of the cleaner is not observed: oracle only *)
-  | CStops _ => true          (* the schedule of the callers is not observed: oracle only *)
+  | CStops _ _ => true          (* the schedule of the callers is not observed: oracle only *)
   end.
 
 Definition oracle (c : case) : bool :=
   match c with
   | CSeq maxttl ops obs sr ce => all_obs_ok true maxttl [] ops obs && stop_ok sr ce
   | CConc maxttl lin obs sr ce => all_obs_ok false maxttl [] lin obs && stop_ok sr ce
-  | CStops calls => forallb (fun p => stop_ok (fst p) (snd p)) calls
+  | CStops calls late => forallb (fun p => stop_ok (fst p) (snd p)) calls && negb late
   end.
 
 (* 0 = agree and oracle holds; 1 = model and implementation differ; 2 = the implementation's
